@@ -1,16 +1,16 @@
 SPECIFICATION Spec
 CONSTANTS
-  L = 20
+  L = 40
   AggHdr = 1
   PerUnit = 2
   FuHdr = 2
   Consumed = 1
   SingleLE = TRUE
-  MaxUnits = 3
-  FillMode = FALSE
-  SmallSet <- NoSizes
-  LaterBatch = TRUE
-  SizeSet <- SizesAll
+  MaxUnits = 5
+  FillMode = TRUE
+  SmallSet <- SmallSizes
+  LaterBatch = FALSE
+  SizeSet <- NoSizes
 INVARIANT SizeOK
 INVARIANT Conserved
 INVARIANT NonEmpty
